@@ -152,6 +152,18 @@ def sc : Scalars Rat GRat :=
   { dist := rdist, lt := rlt, le := rle, close := rclose, arange := arangeR, ofκ := GRat.ofRat,
     ofNat := fun n => ⟨(n : Rat), 0⟩, ltα := GRat.lt, add := (· + ·) }
 
+def AR : Data.Arith Rat GRat :=
+  { add := (· + ·), sub := (· - ·), mul := (· * ·), div := (· / ·), zero := 0, two := ⟨2, 0⟩,
+    ofκ := GRat.ofRat, ofNat := fun n => ⟨(n : Rat), 0⟩, ksub := (· - ·), kadd := (· + ·), kmul := (· * ·),
+    kdiv := (· / ·), kofNat := fun n => (n : Rat), klt := rlt,
+    abs := fun x => ⟨ratAbs x.re, 0⟩, ltα := GRat.lt }
+
+def jGList (j : Json) : M (List GRat) := do (← jArr j).mapM jGRat
+
+/-- (−i)^r -/
+def negIpow (r : Nat) : GRat :=
+  match r % 4 with | 0 => ⟨1, 0⟩ | 1 => ⟨0, -1⟩ | 2 => ⟨-1, 0⟩ | _ => ⟨0, 1⟩
+
 def jAxis (j : Json) : M Data.Axis := do
   match jFieldOpt j "axis" with
   | none => pure .none
@@ -236,6 +248,72 @@ def decodeOp (j : Json) : M (Op Rat GRat) := do
   | "set_value" => pure (.setValue (← nat "obj") (← nat "flat") (← jGRat (← jField j "value")))
   | "set_coord" => pure (.setCoord (← nat "obj") (← str "dim") (← nat "k") (← jRat (← jField j "value")))
   | "del" => pure (.del (← nat "obj"))
+  | "proc" =>
+    let f ← str "f"; let obj ← nat "obj"; let out ← nat "out"
+    let kw ← jField j "kw"
+    let kstr (k : String) : M String := do jStr (← jField kw k)
+    let dim : M String := kstr "dim"
+    match f with
+    | "integrate" =>
+      let dm ← dim
+      match jFieldOpt kw "regions" with
+      | none => pure (.proc (fun d => d.integrateAll AR dm) obj out)
+      | some r =>
+        let regs ← (← jArr r).mapM (fun e => do
+          match ← jArr e with
+          | [a, b] => pure (← jRat a, ← jRat b)
+          | _ => throw "bad region")
+        pure (.proc (fun d => d.integrateRegions AR arangeR rdist dm regs) obj out)
+    | "cumulative_integrate" => do let dm ← dim; pure (.proc (fun d => d.cumulativeIntegrate AR dm) obj out)
+    | "left_shift" => do
+      let dm ← dim; let n ← jInt (← jField kw "n")
+      pure (.proc (fun d => d.leftShift AR rdist dm n) obj out)
+    | "reference" => do
+      let dm ← dim; let sh ← jRat (← jField kw "shift")
+      pure (.proc (fun d => d.reference AR dm sh) obj out)
+    | "normalize" =>
+      let dm := match jFieldOpt kw "dim" with | some v => v.getStr?.toOption | none => none
+      pure (.proc (fun d => d.normalize AR arangeR dm) obj out)
+    | "interp" => do
+      let dm ← dim; let nc ← jRatList (← jField kw "new_coord")
+      pure (.proc (fun d => d.interp AR arangeR dm nc) obj out)
+    | "average" => do
+      let ax ← jAxis kw
+      pure (.proc (fun d => d.average gmean ax) obj out)
+    | "calculate_enhancement" => do
+      let idx ← jInt (← jField kw "idx")
+      pure (.proc (fun d => d.enhancement AR idx (fun x => ⟨x.re, 0⟩)) obj out)
+    | "apodize" => do
+      let dm ← dim; let kind ← kstr "kind"
+      let keys ← jStrList (← jField kw "kwkeys"); let w ← jGList (← jField kw "w")
+      let valid ← jStrList (← jField kw "valid")
+      pure (.proc (fun d => d.apodize AR valid dm kind keys w) obj out)
+    | "phase" => do
+      let dm ← dim
+      let tbl ← (← jArr (← jField kw "cis")).mapM jGList
+      pure (.proc (fun d => d.phase AR arangeR dm (fun j k => (tbl.getD j []).getD k default)) obj out)
+    | "phase_cycle" => do
+      let dm ← dim; let rp ← jNatList (← jField kw "rp")
+      pure (.proc (fun d => d.phaseCycle AR dm rp negIpow) obj out)
+    | "trace_local" => do
+      let dm ← dim
+      let tbl ← (← jArr (← jField kw "table")).mapM (fun e => do
+        match ← jArr e with
+        | [a, b] => pure (← jGList a, ← jGList b)
+        | _ => throw "bad table row")
+      let n' ← jNat (← jField kw "n_out")
+      let nc ← match jFieldOpt kw "new_coord" with | some c => some <$> jRatList c | none => pure none
+      let name ← kstr "histname"; let keys ← jStrList (← jField kw "keys")
+      pure (.proc (fun d => d.traceLocal arangeR dm tbl n' nc name keys) obj out)
+    | "fourier_transform" | "inverse_fourier_transform" => do
+      let dm ← dim; let zff ← jNat (← jField kw "zff")
+      let shift := (jFieldOpt kw "shift").isSome
+      let ppm ← match jFieldOpt kw "ppm" with | some v => some <$> jRat v | none => pure none
+      let tw ← jGList (← jField kw "tw")
+      let twf := fun m => tw.getD m default
+      if f == "fourier_transform" then pure (.proc (fun d => d.fourierTransform AR dm zff shift ppm twf) obj out)
+      else pure (.proc (fun d => d.inverseFourierTransform AR dm zff shift ppm twf) obj out)
+    | _ => throw s!"unknown proc {f}"
   | _ => throw s!"unknown op {op}"
 
 structure Out where
